@@ -227,6 +227,13 @@ def race_scenarios(family: str) -> list[cw.Scenario]:
           setup=reg + [("poll", "r0", 2), ("status", "i1", "running", "r0"), ("status", "i2", "running", "r0"),
                        ("advance", 61.0)],
           actors=[("recovery", "r1", "running"), ("finisher", "r0", "i1"), ("finisher", "r0", "i2")]),
+        # a runner keeps polling while recovery re-queues: whatever it pops must be runnable
+        S("pending-recovery-vs-poller", family, setup=reg + [("poll", "r0", 2), ("advance", 6.0)], settle=True,
+          actors=[("recovery", "r1", "pending"), ("poller", "r3", 2, {"rounds": 3})]),
+        S("running-recovery-vs-poller", family, settle=True,
+          setup=reg + [("poll", "r0", 2), ("status", "i1", "running", "r0"), ("status", "i2", "running", "r0"),
+                       ("advance", 61.0)],
+          actors=[("recovery", "r1", "running"), ("poller", "r3", 2, {"rounds": 3})]),
         # two recovery runs at the same time
         S("two-recoveries", family, setup=reg + [("poll", "r0", 2), ("advance", 6.0)], settle=True,
           actors=[("recovery", "r1", "pending"), ("recovery", "r2", "pending")]),
